@@ -11,6 +11,8 @@ VolCreate(out, inputs, expect) == [op |-> "vol_create", out |-> out, inputs |-> 
 VolCreateRel(out, inputs, expect) == [op |-> "vol_create", out |-> out, inputs |-> inputs, expect |-> expect, rel |-> TRUE]
 VolOpen(p, listing) == [op |-> "vol_open", path |-> p, expect |-> "ok", listing |-> listing]
 NoIndex == 9999                                                            \* "not contained": lookup refuses
+VolOpenL(p, listing, fileLen) == [op |-> "vol_open", path |-> p, expect |-> "ok", listing |-> listing, fileLen |-> fileLen]   \* ... with the archive's size
+VolStreamByName(n, segs) == [op |-> "vol_stream", name |-> n, expect |-> "ok", segs |-> segs]
 VolIndex(n, i) == [op |-> "vol_index", name |-> n, expect |-> i]
 VolStream(i, segs) == [op |-> "vol_stream", i |-> i, expect |-> "ok", segs |-> segs]
 VolStreamErr(i) == [op |-> "vol_stream", i |-> i, expect |-> "err", segs |-> <<>>]
